@@ -1,6 +1,6 @@
 (* DynArmFacts.v: Dyn.ser_prim is, on the fourteen numeric / boolean kinds, what the arms of
    ser_named_type read from postcard-dyn/src/ser.rs compute (C17, C18). *)
-From PV Require Import Base MachineInt VarintParams GenArith GenLoops Varint DataModel Schema SchemaDecl MaxSize Dyn DynArmDecl GenDynArms DynArms DynCompositeExpected GenDynComposite.
+From PV Require Import Base MachineInt VarintParams GenArith GenLoops Varint DataModel Schema SchemaDecl MaxSize Dyn DynArmDecl GenDynArms DynArms DynCompositeExpected GenDynComposite GenDynHelpers.
 From Coq Require Import Lia ZArith.
 Open Scope N_scope.
 
@@ -117,4 +117,12 @@ Qed.
    the same error kinds and tag bytes ---- *)
 Lemma dyn_composite_is_source :
   dyn_ser_composite_holes = dyn_ser_composite_expected /\ dyn_de_composite_holes = dyn_de_composite_expected.
+Proof. split; reflexivity. Qed.
+
+(* the helpers around the walks: to_stdvec_dyn, from_slice_dyn, Option::right (None is
+   SchemaMismatch), From<TryFromIntError> (SchemaMismatch), take_one / take_n (bounds-checked,
+   UnexpectedEndOfData) *)
+Lemma dyn_helpers_are_source :
+  dynser_fns_matched = [[102; 114; 111; 109]; [114; 105; 103; 104; 116]; [116; 111; 95; 115; 116; 100; 118; 101; 99; 95; 100; 121; 110]] /\
+  dynde_fns_matched = [[102; 114; 111; 109; 95; 115; 108; 105; 99; 101; 95; 100; 121; 110]; [114; 105; 103; 104; 116]; [116; 97; 107; 101; 95; 111; 110; 101]].
 Proof. split; reflexivity. Qed.
